@@ -109,16 +109,20 @@ theorem demoteOne_allQ (cfg : Cfg) (P : Tx → Prop) (p : Pool) (a : Nat) (h : A
       · exact h a x (Or.inl (List.mem_filter.mp h1).1)
       · exact h b x (Or.inl h1)
     · exact h b x (Or.inr hx)
+  obtain ⟨hks, hrs⟩ := gapSplit_sub cfg (qForward (p.pending a) (nonceOf p a)).1 (nonceOf p a)
+  generalize gapSplit cfg (qForward (p.pending a) (nonceOf p a)).1 (nonceOf p a) = kr at hks hrs ⊢
+  obtain ⟨keep, rest⟩ := kr
+  dsimp only at hks hrs ⊢
   split
   · exact h1
   · apply foldl_addWaiting_allQ
     · intro b x hx
       rcases hx with hx | hx
       · rcases mem_mSet hx with h2 | h2
-        · simp at h2
+        · exact h a x (Or.inl (List.mem_filter.mp (hks.subset h2)).1)
         · exact h1 b x (Or.inl h2)
       · exact h1 b x (Or.inr hx)
-    · intro t ht; exact h a t (Or.inl (List.mem_filter.mp ht).1)
+    · intro t ht; exact h a t (Or.inl (List.mem_filter.mp (hrs.subset ht)).1)
 
 theorem foldl_demote_allQ (cfg : Cfg) (P : Tx → Prop) : ∀ (accts : List Nat) (p : Pool), AllQ P p →
     AllQ P (accts.foldl (demoteOne cfg) p) := by
